@@ -585,6 +585,12 @@ func (s *session) opRawRead(r *rec, buf []byte) bool {
 	return ok
 }
 
+// noteFS puts a file-system step of the harness into the op stream (both sides answer "ok"), so that the
+// session history in a replay file is complete
+func (s *session) noteFS(r *rec, what string) {
+	r.emit("scenario", "scenario fs:"+strings.ReplaceAll(strings.ReplaceAll(what, s.root+"/", ""), " ", "_"), "ok")
+}
+
 func recsBytes(recs ...rawRec) []byte {
 	var b []byte
 	for _, x := range recs {
@@ -896,8 +902,10 @@ func runSession(r *rec, g *rng, s *session, u *universe, steps int, mon *os.File
 			p := filepath.Join(u.root, f)
 			if fi, err := os.Lstat(p); err == nil && fi.Mode().IsRegular() {
 				os.Remove(p)
+				s.noteFS(r, "unlink "+p)
 				if g.chance(60) {
 					os.WriteFile(p, []byte("new"), 0o644) // same name, new inode
+					s.noteFS(r, "create "+p)
 				} else if g.chance(50) {
 					// a re-Add that fails (ENOENT) while the path may still be listed (hard link / stale entry)
 					s.opAdd(r, u.spell(g, f), 0x1f, false)
@@ -910,10 +918,12 @@ func runSession(r *rec, g *rng, s *session, u *universe, steps int, mon *os.File
 				l := filepath.Join(u.root, "l0")
 				os.Remove(l)
 				os.Symlink([]string{"d0", "d1", "dir1"}[g.intn(3)], l)
+				s.noteFS(r, "retarget l0")
 			} else {
 				l := filepath.Join(u.root, "lf")
 				os.Remove(l)
 				os.Symlink(filepath.Join(u.root, []string{"f0", "f1", "d1/z"}[g.intn(3)]), l)
+				s.noteFS(r, "retarget lf")
 			}
 			r.notes["fs:retarget"]++
 		case c < 56: // burst of moves: pairs, unmatched move-outs, interleaved halves (ring wrap-around)
@@ -1160,6 +1170,7 @@ var scripts = []func(r *rec, s *session, u *universe){
 		s.opAdd(r, f, 0x1f, false)
 		check(os.Link(f, f+".keep"))
 		check(os.Remove(f))
+		s.noteFS(r, "link f0 f0.keep; unlink f0")
 		s.opAdd(r, f, 0x1f, false)
 		s.opWatchList(r)
 		s.opAdd(r, filepath.Join(u.root, "f0", "below-a-file"), 0x1f, false) // ENOTDIR while f0 does not exist: ENOENT
